@@ -144,6 +144,8 @@ deriving Repr, Inhabited
 /-- Which wrapper (no behaviour of its own; kept so that shapes on both sides are the same term). -/
 inductive WrapKind where
   | select | mutate | recombine | byRef | byMutRef
+  /-- a type-erased form (`Box<dyn DynOperator<..>>`, …) with the identity error conversion, used as a component -/
+  | erased
 deriving Repr, DecidableEq
 
 /-- Composition shapes.  `leaf` is an *arbitrary* operator (anything of type `Val → Rand (Except OpErr Val)`),
